@@ -237,7 +237,43 @@ def check(report, tier, seed):
             diff = {k: (got.get(k), CSAPP.get(k)) for k in set(got) | set(CSAPP) if got.get(k) != CSAPP.get(k)}
             report.violation("preamble-value", "predefined names differ from CS:APP: %s" % diff, {"diff": str(diff)})
         res["preamble_names"] = len(got)
-    report.coverage["evaluations"] = len(cases) + len(lits) + len(tcases) + 1
+    # ---- 5. files read from disk by the real binary: line-ending style and comments ------------------
+    import os, subprocess, tempfile
+    cli = lib.build_cli("dev")
+    nfile = 8 if tier == "quick" else 100
+    with tempfile.TemporaryDirectory(dir=lib.CACHE) as d:
+        for i in range(nfile):
+            g = gen.ProgGen(rng, n_wires=rng.randint(2, 8), depth=2, allow_div=False, halt_at=rng.choice([2, 3, 4]))
+            stmts = [l for l in g.build().split("\n") if l]
+            yo = gen.yo_image(rng, 90)
+            open(os.path.join(d, "i.yo"), "w").write(yo)
+            # the same statements, with comment lines between them and line comments after them
+            decorated = []
+            for l in stmts:
+                r = rng.random()
+                if r < 0.3:
+                    decorated.append(rng.choice(["# a comment line", "// another comment", "#", "   # indented ❤"]))
+                decorated.append(l + (rng.choice(["  # trailing", " // trailing"]) if rng.random() < 0.3 else ""))
+            if rng.random() < 0.5:
+                decorated.append("# the file ends in a comment")
+            outs = {}
+            for name, eol, lines_ in (("plain-lf", "\n", stmts), ("lf", "\n", decorated), ("crlf", "\r\n", decorated), ("cr", "\r", decorated)):
+                final = eol if (name == "plain-lf" or rng.random() < 0.7) else ""
+                hp = os.path.join(d, "f%d_%s.hcl" % (i, name))
+                with open(hp, "wb") as f:
+                    f.write((eol.join(lines_) + final).encode())
+                pr = subprocess.run([cli, "-q", hp, os.path.join(d, "i.yo"), "8"], capture_output=True, timeout=60)
+                outs[name] = (pr.returncode, pr.stdout, pr.stderr[:300])
+                res["files"] += 1
+            ref = outs["plain-lf"]
+            for name, o in outs.items():
+                if o[:2] != ref[:2]:
+                    report.violation("file-line-endings-change-meaning:" + name,
+                                     "the same program written with %s line ends / comments gives a different result through the command line (exit %d vs %d): %s" %
+                                     (name, o[0], ref[0], lib.first_diff(o[1].decode("utf-8", "replace").split("\n"), ref[1].decode("utf-8", "replace").split("\n"))[:200]),
+                                     {"program": "\n".join(decorated), "variant": name, "stderr": o[2].decode("utf-8", "replace")})
+                    break
+    report.coverage["evaluations"] = len(cases) + len(lits) + len(tcases) + 1 + res["files"]
     report.coverage["distinct_nontrivial"] = res["precedence_checked"] + res["literals"] + res["trivia"]
     report.coverage["exhaustive"] = True
     report.coverage["rule"] = ("all 289 ordered pairs and %d triples of binary operators without parentheses, each unary operator / slice / in-set beside each binary "
@@ -245,7 +281,8 @@ def check(report, tier, seed):
                                "grammar's AST (hook parse_statements) equal to the model parser's AND to the fully parenthesised form per the documented table "
                                "(python oracle written from the property's sentence); literal spellings of 2^k-1, 2^k, 2^k+1 for k from 1 to 300 in three bases, "
                                "upper/lower/mixed hex, leading zeros, malformed ones; a program re-rendered with random comments / blanks / CR / LF / CRLF / "
-                               "non-breaking spaces between every two tokens; the preamble's names against the CS:APP table" % (len(triples), 2000 if tier == "quick" else 50000))
+                               "non-breaking spaces between every two tokens; %d programs written to disk with LF / CR LF / bare CR line ends and line comments between and after the "
+                               "statements, run through the real binary: same exit status and output as the plain text; the preamble's names against the CS:APP table" % (len(triples), 2000 if tier == "quick" else 50000, nfile))
     report.coverage["distribution"] = dict(res)
     report.coverage["samples"] = [cases["p17"]["text"], cases["m0"]["text"], lits[9]]
 
